@@ -1,3 +1,23 @@
+/-
+Property C18 — the thread model (`Model/Threads.lean`) instantiated with the C-API model (`Model/CApi.lean`):
+a C client session is an instance (`Model/ThreadsCApi.lean` `capiSys`).
+
+* `capiThreadParametric`   THREAD PARAMETRICITY of the C API, for every `R`, policy, handler program that does not
+                           itself call `take_last_error`, environment, thread and entry point other than
+                           `take_last_error` — including `write`/`end` with every call-back they run (`drive`,
+                           `runHandler`, `runStreaming`, all 18 `cUnitOp` shapes): executed by thread `t` on an
+                           environment with ARBITRARY `LAST_ERROR` slots the call has the same outcome class and yields
+                           the same environment up to `lastErr` as on a canonical thread with clean slots, and `lastErr`
+                           changes exactly by recording into slot `t` what the canonical run left in its own slot.
+                           Proof: every function `f` of the model commutes with `Φ L t` (re-slotting):
+                           `f t (Φ L t e) = mapRes (Φ L t) (f canon e)`; only `saveLastError` is not `rfl` (`save_Φ`).
+* `capi_step_faithful`     hence `capiSys.step` + the thread model's `record` IS `CApi.topStep` by thread `t`.
+* `capi_session_faithful`  for any assignment of a session's calls to threads, `CApi.run` (one environment, real thread
+                           ids, real slots) and the thread model agree on the session state and on every thread's
+                           `LAST_ERROR`. With `C18_sequential_prediction`/`C18_interleaving_projection` at `capiSys`:
+                           any interleaving of any number of sessions on any threads = each session's `CApi` run alone.
+* `capiThreadParametric_partial`  the call-back-free entry points, without the `takeFree` hypothesis.
+-/
 import LolHtml.Model.ThreadsCApi
 import LolHtml.Thm.C18_Threads
 import LolHtml.Lemmas.CApi
@@ -541,7 +561,7 @@ theorem topStep_Φ_end (pol : Policy) (prog : Prog) (hp : takeFree prog) (e : En
     | ok e2 =>
       cases res with
       | ok x => cases x; rfl
-      | error m => simp only [mapRes, ok_bind, save_Φ]; rfl
+      | error m => simp only [ok_bind, save_Φ]; rfl
   · rfl
 
 omit L t in
